@@ -85,6 +85,12 @@ def run(ctx):
             if pt[k] == 0:
                 pt[k] = F(3, 8)
         pts.append(pt)
+        # followed by a NEARBY sample (a slowly varying stream): every non-calibration input moved by 2^-22 relative
+        eps = 1 + F(1, 2 ** 22)
+        pts.append({n: (v if n in cal_names else v * eps) for n, v in pt.items()})
+    # zero-length and sub-nanosecond steps are steps like any other (the stored acceleration / rates must still be recomputed)
+    for tiny in (F(0), F(1, 2 * 10 ** 9), F(-3, 10 ** 10)):
+        pts.append(dict(pts[ctx.rng.randrange(len(pts))], dt=tiny))
     cal0 = {n: pts[0][n] for n in cal_names}
     for cse in (True, False):
         try:
